@@ -46,13 +46,14 @@ type World struct {
 	Clock *vpipe.Clock
 	Epoch time.Time
 
-	mu     sync.Mutex
-	Nodes  map[int]*Node
-	Conns  map[int]*Client
-	Topics map[string][]string // client-facing topic string -> level sequence (ground truth)
-	Auth   wasp.AuthenticationHandler
-	MemLog bool // nodes use an in-memory message log (race-detector runs)
-	Quiet  bool // seams do not record (stress runs): only what the driver emits itself
+	mu      sync.Mutex
+	Nodes   map[int]*Node
+	Conns   map[int]*Client
+	Topics  map[string][]string // client-facing topic string -> level sequence (ground truth)
+	Auth    wasp.AuthenticationHandler
+	Reverse bool // the gossip network delivers pending broadcasts newest first
+	MemLog  bool // nodes use an in-memory message log (race-detector runs)
+	Quiet   bool // seams do not record (stress runs): only what the driver emits itself
 
 	cnt    map[string]int // hook counters
 	cntCh  chan struct{}
@@ -788,6 +789,11 @@ func (w *World) PumpAll() int {
 		w.mu.Unlock()
 		if len(todo) == 0 {
 			return k
+		}
+		if w.Reverse { // newest first: removals overtake the creations they refer to
+			for i, j := 0, len(todo)-1; i < j; i, j = i+1, j-1 {
+				todo[i], todo[j] = todo[j], todo[i]
+			}
 		}
 		for _, t := range todo {
 			w.Deliver(w.Msg(t[0]), t[1])
